@@ -32,7 +32,8 @@ def gen_cases(ctx):
         pol = [0.0, 0.0, 0.0]
         pol[(axis + 1) % 3], pol[(axis + 2) % 3] = 0.6, 0.8
         spec = {"shape": shape, "spacing": 5e-8, "steps": 6, "bt": bt,
-                "sources": [{"kind": "gauss" if i % 3 == 2 else "plane", "axis": axis, "pos": 2, "dir": d, "pol": pol, "radius": 1.2e-7, "amp": 1.5}],
+                "sources": [{"kind": "gauss" if i % 3 == 2 else "plane", "axis": axis, "pos": 2, "dir": d, "pol": pol, "radius": 1.2e-7, "amp": 1.5,
+                             "phase": [0.0, 0.7, 1.5707963267948966][i % 3]}],      # source-level carrier phase (WaveCharacter.phase_shift)
                 "mats": {"seed": ctx.rng.randint(0, 10**6), "ncomp": 1, "pow2": True}}
         cases.append({"kind": "inject", "spec": spec, "steps": [0, 3]})
     leak = [(a, d) for a in range(3) for d in "+-"]
@@ -43,7 +44,7 @@ def gen_cases(ctx):
         pol[(axis + 1) % 3], pol[(axis + 2) % 3] = math.cos(ang), math.sin(ang)
         cases.append({"kind": "leak", "axis": axis, "dir": d, "pol": pol, "cpw": ctx.rng.choice([15, 16, 20]), "pulsed": bool(ctx.rng.random() < 0.5),
                       "eps": [ctx.rng.choice([2.25, 4.0, 12.0]), 1.0][j % 2],      # homogeneous dielectric / vacuum
-                      "hgiven": bool(j % 2)})                                       # polarisation declared through H instead of E
+                      "hgiven": bool(j % 2), "phase": [1.0, 0.0, 0.7][j % 3]})                                       # polarisation declared through H instead of E
     for r in ([0.3, 0.45] if ctx.quick else [0.3, 0.35, 0.4, 0.5, 0.8, 1.2]):
         axis = ctx.rng.randint(0, 2)
         pol = [0.0, 0.0, 0.0]
